@@ -382,7 +382,7 @@ let cmd_mbuild args =
   match args with
   | [feat; h] ->
     let stmts = match parse_sexp (hex_decode h) with L l -> List.map stmt_of l | _ -> failwith "stmts" in
-    (match build_program (features_of feat) gen_fixed ascii_lower ascii_upper stmts with
+    (match build_program (features_of feat) gen_fixed test_lower test_upper stmts with
      | Ok p ->
        emit ("accept " ^ sexp_of_program p);
        emit ("valid_schedule " ^ b01 (valid_schedule (known0 p) p.p_actions))
